@@ -232,13 +232,18 @@ def split_cases(lines):
     return cases
 
 
+# one case (corpus witness, shrinking candidate, final replay) on either side: a driver that spins on a corrupted
+# structure, or an implementation loop the per-operation watchdog does not see, must not hold up a violated check
+EVAL_TIMEOUT_S = int(os.environ.get("VERIF_EVAL_TIMEOUT_S", "300"))
+
+
 def run_impl(h, stream, ops_path, trace_path, stats_path, timeout_ms=None):
     env = dict(os.environ)
     if timeout_ms:
         env["VERIF_CASE_TIMEOUT_MS"] = str(timeout_ms)
     with open(ops_path) as fi, open(trace_path, "w") as fo:
         try:
-            r = subprocess.run([h, "run", stream, stats_path], stdin=fi, stdout=fo, stderr=subprocess.PIPE, text=True, env=env, timeout=1800)
+            r = subprocess.run([h, "run", stream, stats_path], stdin=fi, stdout=fo, stderr=subprocess.PIPE, text=True, env=env, timeout=EVAL_TIMEOUT_S)
         except subprocess.TimeoutExpired:
             return 124, "timeout"
     return r.returncode, r.stderr
@@ -247,7 +252,7 @@ def run_impl(h, stream, ops_path, trace_path, stats_path, timeout_ms=None):
 def run_model(stream, trace_path, model_path):
     with open(trace_path) as fi, open(model_path, "w") as fo:
         try:
-            r = subprocess.run([DRV, stream], stdin=fi, stdout=fo, stderr=subprocess.PIPE, text=True, timeout=1800)
+            r = subprocess.run([DRV, stream], stdin=fi, stdout=fo, stderr=subprocess.PIPE, text=True, timeout=EVAL_TIMEOUT_S)
         except subprocess.TimeoutExpired:
             return 124, "timeout"
     return r.returncode, r.stderr
@@ -585,7 +590,9 @@ def check(pid, P, tier, seed, work, replay, t0):
                 p = subprocess.Popen([h, "gen", stream, str(seed * 1000 + sh), tier], stdout=fo, stderr=subprocess.PIPE, text=True,
                                      env=dict(os.environ, VERIF_SHARDS=str(nshards)))
             procs.append((sh, ops_p, p))
-        tlim = int(os.environ.get("VERIF_STEP_TIMEOUT_S", "14400" if tier == "thorough" else "3600"))
+        # per process (generator shard, harness run, driver): the quick tier needs well under a minute per step on the
+        # unchanged tree, so 15 minutes is a hang (e.g. a generator that consults a mutated, looping implementation)
+        tlim = int(os.environ.get("VERIF_STEP_TIMEOUT_S", "14400" if tier == "thorough" else "900"))
         for sh, ops_p, p in procs:
             _, err = comm(p, tlim, "harness generator %s shard %d" % (stream, sh), broken)
             if p.returncode != 0:
